@@ -262,11 +262,34 @@ class Check(core.PropertyCheck):
                             (("req_trailers", "valid"), ("req_unknown", "unknown_field")),
                             (("resp_trailers", "valid"), ("top_unknown", "unknown_field")),
                             (("req_trailers", "malformed_headers"),)]
-            return docs + tri[:24] + trailer_docs
+            return docs + tri[:24] + trailer_docs + self._pure_docs()
         docs = gen_docs(T_VALID[:6], T_INVALID, 2)
         tri = [d for d in gen_docs(T_VALID[:4], T_INVALID[:8], 3) if len(d) == 3 and sum(e[1] != "valid" for e in d) <= 1]
         rng.shuffle(tri)
-        return docs + tri[:150]
+        return docs + tri[:150] + self._pure_docs()
+
+    @staticmethod
+    def _pure_docs():
+        """Documents that touch ONE part of the flow only (request fields / response fields / annotations): valid
+        entries of that part, optionally followed by an invalid entry of the same part.  Which top-level keys a
+        document has is a feature of its own (a handler may treat annotation-only documents differently)."""
+        parts = {
+            "request": (("req_method", "req_path"), (("req_unknown", "unknown_field"), ("req_port", "malformed_port"))),
+            "response": (("resp_reason", "resp_code"), (("resp_unknown", "unknown_field"), ("resp_code", "malformed_code"))),
+            "top": (("marked", "comment"), (("top_unknown", "unknown_field"),)),
+        }
+        out = []
+        for _part, (valid, invalid) in parts.items():
+            prefixes = [(valid[0],), (valid[1],), (valid[0], valid[1]), (valid[1], valid[0])]
+            for pre in prefixes:
+                out.append(tuple((k, "valid") for k in pre))
+                for ik in invalid:
+                    if ik[0] in pre:
+                        continue
+                    out.append(tuple((k, "valid") for k in pre) + (ik,))
+                    if len(pre) == 1:
+                        out.append((ik,) + tuple((k, "valid") for k in pre))
+        return out
 
     def model_constants(self, tier, docs=None, max_ops=2):
         return {"Keys": frozenset(KEYS), "Docs": frozenset(docs or ()), "MaxOps": max_ops,
@@ -346,6 +369,23 @@ class Check(core.PropertyCheck):
                         ops = ([["put", self._random_doc(rng, all_valid, invalid_all, want_invalid=False)]] if prior else [])
                         ops.append(["put", doc])
                         yield core.Scenario({"ops": ops, "trailers0": shapes[count % 3]}, source="enumerated")
+        # documents that touch one part of the flow only (annotations / request / response), in every order, with every
+        # kind of invalid entry of that part or of another one, fresh and after an accepted edit
+        part_keys = {"top": ["marked", "comment"], "request": [k for k in KEYS if k.startswith("req_")],
+                     "response": [k for k in KEYS if k.startswith("resp_")]}
+        for part, keys in part_keys.items():
+            for (ikey, ikind) in invalid_all:
+                if ikind == "bad_json":
+                    continue
+                fld = KEYS.get(ikey) or PSEUDO[ikey]
+                for npre in (1, 2):
+                    for prior in (False, True):
+                        cand = [k for k in keys if KEYS[k] != fld and not (fld[1] == "*" and KEYS[k][0] == fld[0])]
+                        pre = rng.sample(cand, min(npre, len(cand)))
+                        doc = [[k, "valid", 0] for k in pre] + [[ikey, ikind, rng.randrange(16)]]
+                        ops = [["put", [[rng.choice(keys), "valid", 0]]]] if prior else []
+                        ops.append(["put", doc])
+                        yield core.Scenario({"ops": ops, "trailers0": shapes[(npre + prior) % 3]}, source="enumerated")
         # a trailers edit in front of every kind of invalid part, on a flow whose trailer block is absent / present but
         # empty / non-empty, and after an accepted edit that emptied the block ("trailers": [])
         for (ikey, ikind) in invalid_all:
